@@ -195,6 +195,43 @@ class Structure:
                 return (0, chain_order.index(g[1]), i) if g[0] == "chain" else (1, 0, i)
 
             idx.sort(key=key)
+        order = getattr(self, "order", None)
+        if order and chain_order is None:
+            # same content, other record order: waters / hetero groups before the chains, waters
+            # interleaved with the chains, chains in reverse file order
+            def gkey(i):
+                g = self.records[i]["group"]
+                return g[1] if g[0] in ("chain", "na") and len(g) > 1 else None
+
+            chains_ = [i for i in idx if self.records[i]["group"][0] in ("chain", "na")]
+            others = [i for i in idx if self.records[i]["group"][0] not in ("chain", "na")]
+            if order == "others-first":
+                idx = others + chains_
+            elif order == "reverse-chains":
+                blocks = {}
+                for i in chains_:
+                    blocks.setdefault((self.records[i]["group"][0], gkey(i)), []).append(i)
+                idx = [i for k_ in reversed(list(blocks)) for i in blocks[k_]] + others
+            elif order == "interleave":
+                blocks = {}
+                for i in chains_:
+                    blocks.setdefault((self.records[i]["group"][0], gkey(i)), []).append(i)
+                keys_ = list(blocks)
+                idx = []
+                rest = []  # hetero residues / waters as whole residues
+                for i in others:
+                    r_ = self.records[i]
+                    k2 = (r_["chain"], r_["seq"], r_["icode"], r_["resn"])
+                    if rest and rest[-1][0] == k2:
+                        rest[-1][1].append(i)
+                    else:
+                        rest.append((k2, [i]))
+                for k_ in keys_:
+                    idx += blocks[k_]
+                    if rest:
+                        idx += rest.pop(0)[1]
+                for _k2, ii in rest:
+                    idx += ii
         out = []
         for n, i in enumerate(idx):
             r = self.records[i]
@@ -207,6 +244,8 @@ class Structure:
                 ln = ln[:54]  # nothing after the coordinates
             elif cols == "segid":
                 ln = ln[:72] + "PROA" + ln[76:]
+            elif cols == "left-names":
+                ln = ln[:12] + r["name"][:4].ljust(4) + ln[16:]  # atom names left-justified in columns 13-16
             out.append(ln)
             if i in self.ters:
                 out.append("TER")
@@ -246,6 +285,7 @@ def _place_contact(P1, P2, target, dirv, gap):
 def materialise(desc) -> Structure:
     s = Structure()
     s.columns = desc.get("columns")
+    s.order = desc.get("order")
     built = []
     placed_xyz = []  # arrays of already placed heavy atoms
     window_waters = []
